@@ -75,7 +75,7 @@ def obligations(tier):
         for ol in ((0, 1, hl, hl + 1, 2 * hl + 6) if tier != "thorough" else range(0, 3 * hl + 2)):
             for cl in ((5,) if tier != "thorough" else (0, 5)):
                 obs.append(Ob("hkdf%d-out%d-ctx%d" % (alg, ol, cl), "C04/hmac_hkdf.c", units=HU[alg] + COMMON, stubs=HST,
-                              defs={"ALG": alg, "KLEN": 7, "MLEN": 9, "OUTLEN": ol, "CTXLEN": cl, "PART": 1}, unwind=330, timeout=600,
+                              defs={"ALG": alg, "KLEN": 7, "MLEN": 9, "OUTLEN": ol, "CTXLEN": cl, "PART": 1}, unwind=330, timeout=600 if ol <= 2 * hl + 6 else 2400,
                               family="hkdf-%d" % alg, tier="quick" if ol in (0, 1, hl, hl + 1, 2 * hl + 6) else "thorough",
                               desc="HKDF extract/expand == RFC 5869 (counter-suffixed chain from 1, truncation, out_len > 255*HashLen refused)",
                               bounds="all salt/ikm/info/prk bytes; out_len enumerated (quick 5 values, thorough 0..3*HashLen+1), info length in {0,5}"))
